@@ -431,6 +431,14 @@ struct C02 {
                                                               Join(toks).c_str(), p.opcode, dp.row, dp.name, p.status == Teakra::Parser::Opcode::ValidWithExpansion, di.row, di.name, need_dis), rp);
                     return;
                 }
+                // the assembler sees the same operands: the word it produces for this text may differ from the original only in bits the form
+                // declares unused (otherwise the two words are different instructions for the interpreter that the assembler cannot tell apart)
+                if (di.row >= 0 && di.unused != 0xFFFF && ((o ^ p.opcode) & ~di.unused)) {
+                    Fail(Fmt("form:assembler-operands:%s", di.name), Fmt("opcode %04X ('%s') assembles to %04X: the two words differ in operand bits %04X of the form '%s', which the "
+                                                                         "interpreter distinguishes and the printed text does not", o, Join(toks).c_str(), p.opcode,
+                                                                         (o ^ p.opcode) & ~di.unused, di.name), rp);
+                    return;
+                }
             }
         }
         GenResult g;
